@@ -17,7 +17,8 @@ use kanidm_proto::v1::{
     AuthAllowed, AuthCredential as ProtoCred, AuthIssueSession, AuthMech, AuthStep as ProtoStep,
 };
 use kanidmd_lib::entry::{Entry, EntryInit, EntryNew};
-use kanidmd_lib::idm::authentication::AuthState;
+use kanidmd_lib::idm::authentication::{AuthCredential as InternalCred, AuthExternal, AuthState};
+use kanidmd_lib::idm::event::{AuthEventStep, AuthEventStepCred};
 use kanidmd_lib::idm::credupdatesession::{
     CredentialUpdateSessionToken, InitCredentialUpdateEvent, MfaRegStateStatus,
 };
@@ -222,6 +223,10 @@ pub struct Sim {
     pub keep_log: bool,
     /// the webauthn challenge of the most recent Continue[passkey] answer
     pub last_passkey_chal: Option<webauthn_rs::prelude::RequestChallengeResponse>,
+    /// `state` parameter of the most recent OAuth2 authorisation request the server asked for
+    pub last_oauth2_state: Option<String>,
+    /// which external request the most recent External answer asked the front end to make
+    pub last_external: &'static str,
 }
 
 #[derive(Default, Clone, Debug)]
@@ -251,6 +256,8 @@ impl Sim {
             log: Vec::new(),
             keep_log: true,
             last_passkey_chal: None,
+            last_oauth2_state: None,
+            last_external: "",
         })
     }
 
@@ -653,6 +660,10 @@ impl Sim {
         let cai = ClientAuthInfo::new(Source::Internal, None, None, None);
         let r = a.auth(&ae, ct, cai).await;
         let _ = a.commit();
+        self.auth_result(r)
+    }
+
+    fn auth_result(&mut self, r: Result<kanidmd_lib::idm::event::AuthResult, OperationError>) -> (Option<Uuid>, StepOut) {
         match r {
             Err(e) => (None, StepOut::Err(format!("{e:?}"))),
             Ok(ar) => {
@@ -666,12 +677,115 @@ impl Sim {
                         }
                         StepOut::Continue(a.iter().map(allowed_name).collect())
                     }
-                    AuthState::External(_) => StepOut::External,
+                    AuthState::External(x) => {
+                        match x {
+                            AuthExternal::OAuth2AuthorisationRequest { request, .. } => {
+                                self.last_oauth2_state = request.state.clone();
+                                self.last_external = "authorisation";
+                            }
+                            AuthExternal::OAuth2AccessTokenRequest { .. } => self.last_external = "token",
+                            AuthExternal::OAuth2AccessTokenIntrospectionRequest { .. } => self.last_external = "introspection",
+                        }
+                        StepOut::External
+                    }
                     AuthState::Denied(r) => StepOut::Denied(r),
                     AuthState::Success(tok, _) => StepOut::Success(tok),
                 };
                 (Some(ar.sessionid), out)
             }
+        }
+    }
+
+    /// A credential step the front end builds itself (answers of an external OAuth2 provider).
+    pub async fn auth_step_internal(&mut self, sid: Uuid, cred: InternalCred, ct: Duration, label: &str) -> StepOut {
+        let ae = AuthEvent { ident: None, step: AuthEventStep::Cred(AuthEventStepCred { sessionid: sid, cred }) };
+        let r = match self.idms.auth().await {
+            Err(e) => Err(e),
+            Ok(mut a) => {
+                let cai = ClientAuthInfo::new(Source::Internal, None, None, None);
+                let r = a.auth(&ae, ct, cai).await;
+                let _ = a.commit();
+                r
+            }
+        };
+        let out = self.auth_result(r).1;
+        self.ev(ct, "front-end", "auth", json!({"session": "sid", "step": label}), out.brief());
+        out
+    }
+
+    /// An external OAuth2 provider this server trusts for authentication (with token introspection).
+    pub async fn create_trust_provider(&mut self, name: &str, uuid: Uuid, ct: Duration) -> Result<(), OperationError> {
+        let e: Entry<EntryInit, EntryNew> = entry_init!(
+            (Attribute::Class, EntryClass::Object.to_value()),
+            (Attribute::Class, EntryClass::OAuth2Client.to_value()),
+            (Attribute::Name, Value::new_iname(name)),
+            (Attribute::Uuid, Value::Uuid(uuid)),
+            (Attribute::OAuth2ClientId, Value::new_utf8s("kanidm_at_idp")),
+            (Attribute::OAuth2ClientSecret, Value::new_utf8s("idp_secret")),
+            (Attribute::OAuth2AuthorisationEndpoint, Value::new_url_s("https://idp.example.com/authorise").ok_or(OperationError::InvalidValueState)?),
+            (Attribute::OAuth2TokenEndpoint, Value::new_url_s("https://idp.example.com/token").ok_or(OperationError::InvalidValueState)?),
+            (Attribute::OAuth2TokenIntrospectEndpoint, Value::new_url_s("https://idp.example.com/introspect").ok_or(OperationError::InvalidValueState)?),
+            (Attribute::OAuth2RequestScopes, Value::new_oauthscope("openid").ok_or(OperationError::InvalidValueState)?)
+        );
+        let mut w = self.idms.proxy_write(ct).await?;
+        w.qs_write.internal_create(vec![e])?;
+        let r = w.commit();
+        self.ev(ct, "harness", "create_trust_provider", json!({"name": name}), format!("{r:?}"));
+        r
+    }
+
+    /// Link a person to the external provider: from now on the account authenticates there.
+    pub async fn link_trust(&mut self, person: Uuid, provider: Uuid, sub: &str, ct: Duration) -> Result<(), OperationError> {
+        let ml = ModifyList::new_list(vec![
+            Modify::Present(Attribute::Class, EntryClass::OAuth2Account.to_value()),
+            Modify::Present(Attribute::OAuth2AccountProvider, Value::Refer(provider)),
+            Modify::Present(Attribute::OAuth2AccountUniqueUserId, Value::new_utf8s(sub)),
+            Modify::Present(Attribute::OAuth2AccountUniqueUserSub, Value::new_utf8s(sub)),
+            Modify::Present(Attribute::OAuth2AccountCredentialUuid, Value::Uuid(Uuid::new_v4())),
+        ]);
+        let mut w = self.idms.proxy_write(ct).await?;
+        w.qs_write.internal_modify_uuid(person, &ml)?;
+        let r = w.commit();
+        self.ev(ct, "harness", "link_trust", json!({"sub": sub}), format!("{r:?}"));
+        r
+    }
+
+    /// The whole external-provider login as the web front end drives it.
+    pub async fn login_trust(&mut self, name: &str, privileged: bool, sub: &str, ct: Duration) -> Result<JwsCompact, String> {
+        use kanidm_proto::oauth2::{AccessTokenIntrospectResponse, AccessTokenResponse, AccessTokenType, IssuedTokenType};
+        let (sid, out) = self
+            .auth_step(None, ProtoStep::Init2 { username: name.to_string(), issue: AuthIssueSession::Token, privileged }, ct, "init")
+            .await;
+        let sid = match (&out, sid) {
+            (StepOut::Choose(m), Some(s)) if m.contains(&AuthMech::OAuth2Trust) => s,
+            _ => return Err(format!("init: {}", out.brief())),
+        };
+        let (_, out) = self.auth_step(Some(sid), ProtoStep::Begin(AuthMech::OAuth2Trust), ct, "begin(oauth2trust)").await;
+        if !matches!(out, StepOut::External) || self.last_external != "authorisation" {
+            return Err(format!("begin: {}", out.brief()));
+        }
+        let state = self.last_oauth2_state.clone();
+        let out = self.auth_step_internal(sid, InternalCred::OAuth2AuthorisationResponse { code: "code-from-idp".into(), state }, ct, "authorisation-response").await;
+        if !matches!(out, StepOut::External) || self.last_external != "token" {
+            return Err(format!("authorisation response: {}", out.brief()));
+        }
+        let response = AccessTokenResponse {
+            access_token: "idp-access-token".to_string(),
+            token_type: AccessTokenType::Bearer,
+            issued_token_type: Some(IssuedTokenType::AccessToken),
+            expires_in: 300,
+            refresh_token: None,
+            scope: ["openid".to_string()].into_iter().collect(),
+            id_token: None,
+        };
+        let out = self.auth_step_internal(sid, InternalCred::OAuth2AccessTokenResponse { response }, ct, "token-response").await;
+        if !matches!(out, StepOut::External) || self.last_external != "introspection" {
+            return Err(format!("token response: {}", out.brief()));
+        }
+        let response = AccessTokenIntrospectResponse { active: true, sub: Some(sub.to_string()), ..Default::default() };
+        match self.auth_step_internal(sid, InternalCred::OAuth2AccessTokenIntrospectResponse { response }, ct, "introspection-response").await {
+            StepOut::Success(tok) => Ok(*tok),
+            o => Err(format!("introspection response: {}", o.brief())),
         }
     }
 
